@@ -1031,6 +1031,37 @@ func (g *vC08Gen) roundTrip(kind string) {
 			vC08Cmp(d, "Data.to", hex.EncodeToString(msg.Data[33:65]), hex.EncodeToString(to[:]))
 			vC08Cmp(d, "Data.inner", bytes.Equal(msg.Data[65:], inner), true)
 		}
+	case "buildConsumersMessage":
+		wantType = PeerMessageTypeConsumers
+		me := &Peer{IdForNetwork: vC08RandHash(rng), consumers: &neighborMap{m: make(map[crypto.Hash]*Peer)}}
+		n := rng.Intn(5)
+		var want []string
+		for i := 0; i < n; i++ {
+			id := vC08RandHash(rng)
+			auth := make([]byte, authenticationPayloadSize)
+			rng.Read(auth)
+			me.consumers.Set(id, &Peer{IdForNetwork: id, consumerAuth: &AuthToken{PeerId: id, Data: auth}})
+			want = append(want, hex.EncodeToString(id[:])+hex.EncodeToString(auth))
+		}
+		sort.Strings(want)
+		inputClass = "consumers=" + vC08CountClass(n, 0, 1)
+		if !build(func() []byte { return me.buildConsumersMessage() }) {
+			return
+		}
+		check = func(msg *PeerMessage, d *[]vC08Diff) {
+			// the consumers are listed in map order: compare as a set of (id, token) records
+			const rec = 32 + authenticationPayloadSize
+			if len(msg.Data) != rec*n {
+				vC08Cmp(d, "Data.len", len(msg.Data), rec*n)
+				return
+			}
+			var got []string
+			for o := 0; o < len(msg.Data); o += rec {
+				got = append(got, hex.EncodeToString(msg.Data[o:o+rec]))
+			}
+			sort.Strings(got)
+			vC08Cmp(d, "Data.records", strings.Join(got, ","), strings.Join(want, ","))
+		}
 	default:
 		panic(kind)
 	}
@@ -1131,6 +1162,7 @@ var vC08Kinds = []struct {
 	{"buildGraphMessage", 6},
 	{"buildCommitmentsMessage", 8},
 	{"buildRelayMessage", 2},
+	{"buildConsumersMessage", 1},
 }
 
 // ---------------------------------------------------------------- point injection
@@ -1524,7 +1556,7 @@ func TestVerif_C08(t *testing.T) {
 	r.SetRule("seeded workload in four parts. A: hostile bytes for every type byte (known and unknown), lengths on and around every size guard of the parser plus random lengths, " +
 		"five fillings (random, zero, 0xff, small integers, random with codec markers / consistent length fields / valid points). " +
 		"B: every builder (authentication, confirm, request, transaction, both bundle types 0..255, announcement, commitment, transaction challenge, full challenge, response, " +
-		"finalization, graph 0..512 points, pre-commitments 0..1024, relay) on random snapshots (round 0 / references, 1..255 transactions, signed / unsigned) and structurally random transactions; " +
+		"finalization, graph 0..512 points, pre-commitments 0..1024, relay, consumers) on random snapshots (round 0 / references, 1..255 transactions, signed / unsigned) and structurally random transactions; " +
 		"the parsed fields are compared one by one with the builder inputs (own normal form, signatures against what the handle signed). " +
 		"C: for each of the five point positions the point of a built message is replaced by a valid point (must be accepted with that value) and by off-curve, non-canonical, identity, small-order and mixed-order encodings (must be rejected); " +
 		"the classes come from an independent reference on filippo.io/edwards25519. D: every truncation, append, per-position bit flip / 0x00 / 0xff of built messages and random multi-step mutations " +
